@@ -5,6 +5,7 @@ import FpVerif.Lemmas.IterPanic
 import FpVerif.Lemmas.ListForced
 import FpVerif.Lemmas.ListMemoPanic
 import FpVerif.Lemmas.ListQuiesce
+import FpVerif.Lemmas.ListDemand
 /-!
 # C12 (lazy `fp.List` part) — every list expression evaluates to a heap representation of its
 # denotation; memoised cells are evaluated at most once; the cursor loops of package `list` compute
@@ -29,6 +30,11 @@ definitions.
   `ToSeq` — modelled literally with their cursor — terminate on every finite list and equal the
   list computation, for every list representation that satisfies the `fp.List` interface contract
   `LSim`; `FoldTry`/`FoldOption`/`FoldError` stop with the cursor on the failing element.
+* demand (section "demand", audit finding 13): for generated lists (`GenerateFrom`: `Generate`, `Range`,
+  `RangeClosed`) the heap is accounted for exactly — `k` steps of a traversal create exactly `k` new
+  cell pairs (`walk_generated_cells`), and a fold that fails at an element leaves the tail cell of
+  that element PENDING and LAST in the heap (`foldTry_stops_forcing`, `foldOption_stops_forcing`,
+  `foldError_stops_forcing`): the cells of what follows do not exist.
 * `eval_denote` (TOTAL, all sixteen constructors of `LExpr`, i.e. also the closures of `Map`,
   `FlatMap`, `FilterMap`, `Combine`, `Zip`, `ZipWithIndex`, `Scan`, `Collect`, `ReverseSeq`, nested
   arbitrarily, with sharing): for callbacks that do not panic, `eval e` returns — without panic,
@@ -239,8 +245,11 @@ theorem list_fold_eq (f : Val → Val → GoM Val) (g : Val → Val → Val) (hf
     ∃ hp' lg', LL.fold f fuel l z hp lg = (.ok (xs.foldl g z), hp', lg') :=
   fold_lspec hf hS xs fuel hp l z lg hfuel h
 
-/-- `list.FoldTry` terminates, equals the reference fold, and on a failure the cursor rests on the
-    failing element `a`: what follows it has not been forced. -/
+/-- `list.FoldTry` terminates, equals the reference fold, and on a failure the cursor `l'` rests on
+    the failing element `a` (`R hp' l' (a :: rest)`: the loop did not call `Tail` on it).  For an
+    ABSTRACT contract `R` this says nothing about which memo cells are done; that "what follows has
+    not been forced" is a statement about the heap and is proved, in the conclusion, for generated
+    lists in `foldTry_stops_forcing` below (section "demand"). -/
 theorem list_foldTry_eq (f : Val → Val → GoM (Try Val)) (g : Val → Val → Try Val) (hf : Total2 f g)
     (hS : LSim k R) (hp : Heap) (l : LV) (xs : List Val) (h : R hp l xs) (z : Val)
     (fuel : Nat) (hfuel : k + xs.length < fuel) (lg : Log) :
@@ -249,7 +258,8 @@ theorem list_foldTry_eq (f : Val → Val → GoM (Try Val)) (g : Val → Val →
   foldTry_lspec hf hS xs fuel hp l z lg hfuel h
 
 /-- `list.FoldOption` as the property demands it (the cursor advances): terminates on every finite
-    list and equals the reference fold.  The Go loop does not advance the cursor (defect D4). -/
+    list and equals the reference fold; at a `None` the cursor rests on the failing element (heap
+    level: `foldOption_stops_forcing`).  The Go loop does not advance the cursor (defect D4). -/
 theorem list_foldOption_eq (f : Val → Val → GoM (Option Val)) (g : Val → Val → Option Val) (hf : Total2 f g)
     (hS : LSim k R) (hp : Heap) (l : LV) (xs : List Val) (h : R hp l xs) (z : Val)
     (fuel : Nat) (hfuel : k + xs.length < fuel) (lg : Log) :
@@ -556,5 +566,161 @@ theorem eval_fold_panic (f : Val → Val → GoM Val) (g : Val → Val → Excep
   refine ⟨l, hp, lg1, hp', lg', he, h, WF.maxEvals_le _ ?_, hrest⟩
   have := pres_fold f fuel l z hp lg1 hwf
   rw [h] at this; exact this
+
+
+/-! ## demand: how many cells a traversal of a generated list creates and forces (audit finding 13)
+
+`GenFresh g gp N hp l xs` (Lemmas/ListDemand.lean): `l` is the cursor of a `GenerateFrom` list that
+denotes `xs`; its head cell is pending or done, its TAIL cell is PENDING, both are the LAST cells of the
+heap, and `(number of head cells) + xs.length = N`.  The invariant is closed under `IsEmpty`, `Head`,
+`Tail` (`generated_fresh_contract`), so every loop theorem above applies with `R := GenFresh g gp N`
+and its conclusion then speaks about the heap: nothing beyond the cursor has been created, let alone
+forced; every element passed has cost exactly one pair of cells; each head cell's closure (one call
+of the generator) has run at most once (`started_at_most_once`). -/
+
+theorem generated_fresh_contract (g : Int → GoM (Option Val)) (gp : Int → Option Val) (hg : Total g gp) (N : Nat) :
+    LSim 3 (GenFresh g gp N) := genFresh_lsim hg N
+
+/-- `list.GenerateFrom(i, g)` on ANY heap yields a fresh cursor (non-vacuity of `GenFresh`) -/
+theorem generated_starts_fresh (g : Int → GoM (Option Val)) (gp : Int → Option Val) (hp : Heap) (lg : Log) (i : Int)
+    (xs : List Val) (he : Enum gp i xs) :
+    ∃ l hp', makeList (.gen i g) (.gen i g) hp lg = (.ok l, hp', lg) ∧
+      GenFresh g gp (hp.hs.size + 1 + xs.length) hp' l xs := genFresh_makeList hp lg i xs he
+
+/-- what `GenFresh` says about the heap, spelled out -/
+theorem fresh_cursor_is_last (g : Int → GoM (Option Val)) (gp : Int → Option Val) (N : Nat) (hp : Heap) (l : LV)
+    (xs : List Val) (h : GenFresh g gp N hp l xs) :
+    hp.hs.size + xs.length = N ∧ ∃ hc tc, l = .adaptor hc tc ∧ hc + 1 = hp.hs.size ∧ tc + 1 = hp.ts.size ∧
+      ∃ i, hp.ts[tc]? = some (.pending (.gen i g), 0) := h.sizes
+
+/-- `k` steps of a client's traversal: `IsEmpty`, `Head`, `Tail` on the cursor, `k` times -/
+def walk (fuel : Nat) : Nat → LV → HM LV
+  | 0, l => pure l
+  | n + 1, l => do
+    let _ ← LL.isEmpty fuel l
+    let _ ← LL.head fuel l
+    let t ← LL.tail fuel l
+    walk fuel n t
+
+/-- for every list representation satisfying the contract: `k` steps arrive at a cursor that denotes
+    the list without its first `k` elements -/
+theorem walk_lspec {k0 : Nat} {R : Heap → LV → List Val → Prop} (hS : LSim k0 R) (fuel : Nat) (hk : k0 ≤ fuel) :
+    ∀ (n : Nat) (hp : Heap) (l : LV) (xs : List Val) (lg : Log), n ≤ xs.length → R hp l xs →
+      ∃ l' hp' lg', walk fuel n l hp lg = (.ok l', hp', lg') ∧ R hp' l' (xs.drop n) := by
+  intro n
+  induction n with
+  | zero => intro hp l xs lg _ hR; exact ⟨l, hp, lg, rfl, by simpa using hR⟩
+  | succ n ih =>
+    intro hp l xs lg hn hR
+    cases xs with
+    | nil => simp at hn
+    | cons x xs =>
+      obtain ⟨hp1, lg1, h1, hR1⟩ := hS.isEmpty fuel hp l (x :: xs) lg hk hR
+      obtain ⟨hp2, lg2, h2, hR2⟩ := hS.head fuel hp1 l x xs lg1 hk hR1
+      obtain ⟨t, hp3, lg3, h3, hR3⟩ := hS.tail fuel hp2 l x xs lg2 hk hR2
+      obtain ⟨l', hp', lg', h4, hR4⟩ := ih hp3 t xs lg3 (by simpa using hn) hR3
+      refine ⟨l', hp', lg', ?_, by simpa using hR4⟩
+      simp only [walk]
+      rw [bind_ok h1, bind_ok h2, bind_ok h3, h4]
+
+/-- HOW MANY CELLS after `k` head / tail steps on a generated list (of any length ≥ `k`, e.g. a
+    `Range` over billions): exactly `k` new head cells and `k` new tail cells have been created —
+    hence at most `k + 1` generator calls have happened —, and the cursor's tail cell is pending and
+    last: nothing of the remaining `xs.length − k` elements exists in the heap. -/
+theorem walk_generated_cells (g : Int → GoM (Option Val)) (gp : Int → Option Val) (hg : Total g gp) (N : Nat)
+    (fuel : Nat) (hfuel : 3 ≤ fuel) (n : Nat) (hp : Heap) (l : LV) (xs : List Val) (lg : Log) (hn : n ≤ xs.length)
+    (h : GenFresh g gp N hp l xs) :
+    ∃ l' hp' lg', walk fuel n l hp lg = (.ok l', hp', lg') ∧ GenFresh g gp N hp' l' (xs.drop n) ∧
+      hp'.hs.size = hp.hs.size + n := by
+  obtain ⟨l', hp', lg', e, hR⟩ := walk_lspec (genFresh_lsim hg N) fuel hfuel n hp l xs lg hn h
+  refine ⟨l', hp', lg', e, hR, ?_⟩
+  have h1 := h.sizes.1
+  have h2 := hR.sizes.1
+  simp only [List.length_drop] at h2
+  omega
+
+/-- `list.FoldTry` over a generated list: at a failure the cursor rests on the failing element, its
+    tail cell is pending and is the last cell of the heap, and the heap has exactly one more cell
+    pair per element BEFORE the failing one — what follows has not been forced (it has not even been
+    allocated). -/
+theorem foldTry_stops_forcing (f : Val → Val → GoM (Try Val)) (gt : Val → Val → Try Val) (hf : Total2 f gt)
+    (g : Int → GoM (Option Val)) (gp : Int → Option Val) (hg : Total g gp) (N : Nat)
+    (hp : Heap) (l : LV) (xs : List Val) (h : GenFresh g gp N hp l xs) (z : Val)
+    (fuel : Nat) (hfuel : 3 + xs.length < fuel) (lg : Log) :
+    ∃ hp' lg', LL.foldTry f fuel l z hp lg = (.ok (foldTryL gt z xs).1, hp', lg') ∧
+      ((foldTryL gt z xs).1.isSuccess = false →
+        ∃ l' a, GenFresh g gp N hp' l' (a :: (foldTryL gt z xs).2) ∧
+          hp'.hs.size + (foldTryL gt z xs).2.length + 1 = hp.hs.size + xs.length) := by
+  obtain ⟨hp', lg', e, hrest⟩ := foldTry_lspec hf (genFresh_lsim hg N) xs fuel hp l z lg hfuel h
+  refine ⟨hp', lg', e, fun hfail => ?_⟩
+  obtain ⟨l', a, hR⟩ := hrest hfail
+  refine ⟨l', a, hR, ?_⟩
+  have h1 := h.sizes.1
+  have h2 := hR.sizes.1
+  simp only [List.length_cons] at h2
+  omega
+
+theorem foldOption_stops_forcing (f : Val → Val → GoM (Option Val)) (go : Val → Val → Option Val) (hf : Total2 f go)
+    (g : Int → GoM (Option Val)) (gp : Int → Option Val) (hg : Total g gp) (N : Nat)
+    (hp : Heap) (l : LV) (xs : List Val) (h : GenFresh g gp N hp l xs) (z : Val)
+    (fuel : Nat) (hfuel : 3 + xs.length < fuel) (lg : Log) :
+    ∃ hp' lg', LL.foldOption f fuel l z hp lg = (.ok (foldOptionL go z xs).1, hp', lg') ∧
+      ((foldOptionL go z xs).1 = none →
+        ∃ l' a, GenFresh g gp N hp' l' (a :: (foldOptionL go z xs).2) ∧
+          hp'.hs.size + (foldOptionL go z xs).2.length + 1 = hp.hs.size + xs.length) := by
+  obtain ⟨hp', lg', e, hrest⟩ := foldOption_lspec hf (genFresh_lsim hg N) xs fuel hp l z lg hfuel h
+  refine ⟨hp', lg', e, fun hfail => ?_⟩
+  obtain ⟨l', a, hR⟩ := hrest hfail
+  refine ⟨l', a, hR, ?_⟩
+  have h1 := h.sizes.1
+  have h2 := hR.sizes.1
+  simp only [List.length_cons] at h2
+  omega
+
+theorem foldError_stops_forcing (f : Val → GoM (Option Err)) (ge : Val → Option Err) (hf : Total f ge)
+    (g : Int → GoM (Option Val)) (gp : Int → Option Val) (hg : Total g gp) (N : Nat)
+    (hp : Heap) (l : LV) (xs : List Val) (h : GenFresh g gp N hp l xs)
+    (fuel : Nat) (hfuel : 3 + xs.length < fuel) (lg : Log) :
+    ∃ hp' lg', LL.foldError f fuel l hp lg = (.ok (foldErrorL ge xs).1, hp', lg') ∧
+      ((foldErrorL ge xs).1.isSome = true →
+        ∃ l' a, GenFresh g gp N hp' l' (a :: (foldErrorL ge xs).2) ∧
+          hp'.hs.size + (foldErrorL ge xs).2.length + 1 = hp.hs.size + xs.length) := by
+  obtain ⟨hp', lg', e, hrest⟩ := foldError_lspec hf (genFresh_lsim hg N) xs fuel hp l lg hfuel h
+  refine ⟨hp', lg', e, fun hfail => ?_⟩
+  obtain ⟨l', a, hR⟩ := hrest hfail
+  refine ⟨l', a, hR, ?_⟩
+  have h1 := h.sizes.1
+  have h2 := hR.sizes.1
+  simp only [List.length_cons] at h2
+  omega
+
+/-- END TO END from the empty heap: `list.FoldTry(list.Range(a, b), z, f)`.  Building the range
+    creates ONE pair of cells whatever its length; when `f` fails at an element, the heap holds exactly
+    `1 + (number of elements before it)` head cells, the tail cell of the failing element is pending
+    and last, and no cell has been started more than once: the rest of the range — however long — has
+    not been touched. -/
+theorem foldTry_range_stops_forcing (f : Val → Val → GoM (Try Val)) (gt : Val → Val → Try Val) (hf : Total2 f gt)
+    (closed : Bool) (a b : Int) (x z : Val) (lg : Log) (fuel : Nat)
+    (hfuel : 3 + ((LExpr.range closed a b).denote x).length < fuel) :
+    let xs := (LExpr.range closed a b).denote x
+    ∃ l hp hp' lg', LL.eval 1 (.range closed a b) x {} lg = (.ok l, hp, lg) ∧ hp.hs.size = 1 ∧
+      LL.foldTry f fuel l z hp lg = (.ok (foldTryL gt z xs).1, hp', lg') ∧ hp'.maxEvals ≤ 1 ∧
+      ((foldTryL gt z xs).1.isSuccess = false →
+        hp'.hs.size + (foldTryL gt z xs).2.length = xs.length ∧
+        ∃ l' e, GenFresh (rangeGen closed b) (rangeP closed b) (1 + xs.length) hp' l' (e :: (foldTryL gt z xs).2)) := by
+  intro xs
+  obtain ⟨l, hp, he, hsz, hF⟩ := range_eval_fresh closed a b x 0 lg
+  obtain ⟨hp', lg', hfold, hrest⟩ := foldTry_stops_forcing f gt hf _ _ (rangeGen_total closed b) _ hp l xs hF z fuel hfuel lg
+  refine ⟨l, hp, hp', lg', he, hsz, hfold, ?_, fun hfail => ?_⟩
+  · apply WF.maxEvals_le
+    have h1 : hp.WF := by
+      have := (presAll 1).eval (.range closed a b) x {} lg Heap.WF.empty
+      rw [he] at this; exact this
+    have hA := presAll fuel
+    have hP : Pres (LL.foldTry f fuel l z) := pres_foldTry f fuel l z
+    have := hP hp lg h1
+    rw [hfold] at this; exact this
+  · obtain ⟨l', e, hG, hcount⟩ := hrest hfail
+    exact ⟨by omega, l', e, hG⟩
 
 end FpVerif.Spec.C12List
